@@ -19,6 +19,8 @@ import (
 	c19bytes "bytes"
 	c19json "encoding/json"
 	c19fmt "fmt"
+	c19runtime "runtime"
+	c19strings "strings"
 	c19sync "sync"
 	c19testing "testing"
 
@@ -130,13 +132,32 @@ func c19Rules(t *c19testing.T, resource string, admitted bool) {
 	}
 }
 
+// c19PanicOrigin holds "func@file:line" of the frame that raised the panic
+// last caught by c19Guard ("" if none); c19Finish moves it into the notes.
+var c19PanicOrigin string
+
 // c19Guard runs f and returns the string form of a panic escaping from it.
 func c19Guard(f func()) (escaped string) {
+	c19PanicOrigin = ""
 	defer func() {
 		if r := recover(); r != nil {
 			escaped = c19fmt.Sprint(r)
 			if escaped == "" {
 				escaped = "<empty panic value>"
+			}
+			// still on the panicking stack: first frame below the runtime's
+			// panic machinery is the one that raised the panic
+			pcs := make([]uintptr, 64)
+			frames := c19runtime.CallersFrames(pcs[:c19runtime.Callers(2, pcs)])
+			for {
+				fr, more := frames.Next()
+				if fr.Function != "" && !c19strings.HasPrefix(fr.Function, "runtime.") {
+					c19PanicOrigin = c19fmt.Sprintf("%s@%s:%d", fr.Function, fr.File, fr.Line)
+					break
+				}
+				if !more {
+					break
+				}
 			}
 		}
 	}()
@@ -173,6 +194,10 @@ func c19Finish(t *c19testing.T, c *c19Case) {
 		c.Notes += "; "
 	}
 	c.Notes += "seq=[" + seq + "]"
+	if c19PanicOrigin != "" {
+		c.Notes += "; panic_origin=" + c19PanicOrigin
+		c19PanicOrigin = ""
+	}
 	if n := c19stat.GetResourceNode(c.Resource); n != nil {
 		c.NodeFound = true
 		c.GaugeAfter = int(n.CurrentConcurrency())
